@@ -214,7 +214,7 @@ def run_c17(t, tier, res):
 # C20
 
 TOK = re.compile(r"([A-Z])([0-9]*)")
-REGEXES = ["^A", "D", "^[AD0-9]+$", "A[0-9]+D", "O|K", "Y1$", "^.{2}", "X", "[0-9]{2}", "^M$|A"]
+REGEXES = ["^A", "D", "^[AD0-9]+$", "A[0-9]+D", "O|K", "Y1$", "^.{2}", "X", "\\d", "^A\\d+", "[A-Z]\\d\\d", "\\bA", "^\\w+$", "[0-9]{2}", "^M$|A"]
 
 
 def tree_snapshot(root):
